@@ -91,6 +91,36 @@ CHECKS = {
              'from the infoset, pairwise between APIs, and line numbers at element starts are checked. Held on the executions observed; not a proof.',
         note='Trusted: the generator\'s infoset-to-expected-events mapping (cross-checked per document by pyexpat for XML 1.0; disagreeing documents are '
              'discarded and counted), the driver\'s dump code, clang sanitizers. Names are restricted to characters legal in both the 4th and 5th edition.'),
+    'C05': dict(
+        category='exploration', design_ref='DESIGN.md §4 C05',
+        technique='runtime monitoring: reference-codec oracle over exhaustive enumeration of small code-unit spaces and generated strings/documents, with poisoned source tails and exact-size output buffers under ASan+UBSan',
+        text='Every 1-, 2- and 3-byte UTF-8 sequence (padded and bare, every block split x per-call limit, also behind 40 decoded characters), sampled (quick) or all (thorough) 4-byte sequences, '
+             'every Unicode scalar value through UTF-8/UTF-16LE/BE/UCS-4LE/BE/XMLCh encode, decode and canTranscodeTo, every byte and BMP code point through 6 intrinsic and 14 ICU single-byte pages, '
+             'ICU multi-byte round trips, 48 aliases, XMLRecognizer prefixes, and whole documents in 11 encodings x BOM x declaration (also contradictory and ill-formed ones) are run through the real '
+             'transcoders and parser; results (units, bytes eaten, charSizes, exception class, event dump) are compared with reference codecs written for the check.',
+        note='Trusted: the reference codecs (two independent ones compared pairwise; golden tables verified against python codecs at start-up), clang ASan/UBSan. Little-endian host assumed. '
+             'ICU-backed encodings are judged only by python-codecs agreement for 14 pages and by self round trips.'),
+    'C08': dict(
+        category='exploration', design_ref='DESIGN.md §4 C08',
+        technique='runtime monitoring: reference-validator oracle (derivative-based content models, wildcards, substitution, xsi:type/nil, attribute uses) over exhaustive small child sequences and single-rule mutations; both schema-capable scanners, SAX2/DOM/PSVI; ASan+UBSan',
+        text='For random schemas of a modelled subset (UPA-clean by construction and by an explicit check) ALL child sequences up to a bound over the type alphabet, near-miss words, all small attribute subsets, '
+             'random valid trees and 21 kinds of single-rule mutations are validated by the IG and SG scanners through SAX2, DOM and PSVIHandler and compared with the reference validator; on instances both accept, '
+             'defaulted attributes, element defaults and governing types are compared too. Disagreements are re-run stand-alone and shrunk before they count. 47 broken/repaired schema twins and the shipped XSTS regression set run too.',
+        note='Trusted: the reference validator (two matchers cross-checked at run time). Not decided: lax assessment below undeclared elements, redefine, notations, UPA/particle restriction without full checking.'),
+    'C10': dict(
+        category='exploration', design_ref='DESIGN.md §4 C10',
+        technique='runtime monitoring: reference identity-constraint evaluator (XPath subset, node tables per XSD 3.11.5, value-space comparison) + metamorphic relations (sibling permutation, fresh duplicate); ASan+UBSan',
+        text='A schema family with key/unique/keyref on one or two scope levels, 10 selectors and 11 field sets over 8 datatypes is instantiated with 0-200 tuples steered by 17 scenarios (duplicates in other lexical forms, '
+             'near misses, absent/multiple fields, dangling and forward references, duplicates across scopes, nested scopes); verdicts of {SAX2,DOM} x {IG,SG} are compared with the reference; permuting siblings or '
+             'duplicating a group with fresh keys must not change the parser\'s own verdict.',
+        note='Trusted: the reference evaluator. One fixed element structure; union/list types and nilled fields are not judged.'),
+    'C11': dict(
+        category='exploration', design_ref='DESIGN.md §4 C11',
+        technique='runtime monitoring: two reference matchers (Brzozowski derivatives and Thompson NFA) as oracle over generated expressions x small-string enumeration, option-variant and second-pass differentials, malformed-expression operators; ASan+UBSan',
+        text='About 3000 (quick) / 21000 (thorough) expressions rendered from random ASTs in the schema and XPath dialects are compiled in every option variant and run on all strings of length <= 4 over their own '
+             'characters, range ends +-1, members and non-members of every escape, sampled members and neighbours, windows; matches / matches+Match / allMatches / tokenize / replace results are compared with the '
+             'references and between variants and passes; 22 malformed-expression operators must give ParseException. Sanitizer reports, foreign exceptions and twice-confirmed hangs are violations.',
+        note='Trusted: the reference matchers (cross-checked on the first 40 strings of every expression). Back-references, capture groups > 0 and case-insensitive category escapes are not judged.'),
 }
 
 NOT_YET = 'check not built yet (work in progress; see DESIGN.md section 9 build order)'
